@@ -13,7 +13,13 @@ Coq; (c) VolumeModel coefficients of the six parametrisations of one
 conductivity model against eta_of/zeta_of evaluated in Coq on that conductivity
 (1e-12 relative); (d) histories construct + assign (valid and malformed: zero,
 -0.0, negative, NaN, +-inf, None properties, unknown map) against
-Model.Maps.run_history evaluated with vm_compute; (e) map selection by name.
+Model.Maps.run_history evaluated with vm_compute; (e) map selection by name;
+(f) fault paths: on ONE Model object every refused kind of assignment (zero, -0.0,
+negative, +-inf, nan, finite values beyond the float range of 10**x / exp(x), rho = 0,
+assignment to a None property) for every mapping and each of the five parameters,
+exception caught, then stored arrays + VolumeModel coefficients compared with
+Model.MapsSetter.run_history_sp -- the setters interpreted in the ORDER of their
+events (check / store) as re-extracted from models.py on every run (Gen/MapsSetter.v).
 """
 import itertools
 import math
@@ -34,8 +40,12 @@ LEVEL_TEXT = ("Theorems (Props/C14.v) over Coq's reals about the six maps re-ext
               "six parametrisations of the same conductivities coincide (all anisotropy cases, mu_r, "
               "epsilon_r, any coefficient field); validation accepts exactly the arrays whose cells are "
               "finite with positive conductivity (resp. mu_r/epsilon_r), at construction and on every "
-              "assignment; None properties cannot be set; validity, anisotropy case and map are "
-              "invariants of every history of assignments.")
+              "assignment; None properties cannot be set; the setters AS THEY STAND in models.py (order of "
+              "check / store re-extracted on every run) check before they store, so a refused assignment "
+              "leaves every stored parameter unchanged; by induction over operation sequences every model "
+              "reachable by construction and any history of accepted or refused assignments (augmented "
+              "assignments included as long as none is refused) holds only finite cells with positive "
+              "conductivity / mu_r / epsilon_r and keeps anisotropy case and map.")
 LEVEL_NOTE = ("Trusted: Coq kernel; the ast extractor py/vlib/mapsgen.py (np.log10 x read as ln x/ln 10, "
               "c**e as exp(e ln c)); additionally validated by evaluating the extracted trees in Python "
               "against the Map* methods to 1e-12. Real arithmetic, not IEEE: overflow/underflow of "
@@ -43,7 +53,11 @@ LEVEL_NOTE = ("Trusted: Coq kernel; the ast extractor py/vlib/mapsgen.py (np.log
               "model, the IEEE special-value table of backward (1/0 = inf, 10**-inf = 0, ...) and the "
               "VolumeModel formulas are hand models tied by correspondence only. 'Same fields and same "
               "data' follows because the solver sees the model only through VolumeModel (checked by the "
-              "searcher on small solves in the thorough tier, not proved).")
+              "searcher on small solves in the thorough tier, not proved). A REFUSED augmented assignment "
+              "(`model.p *= -1`) has already changed the stored array -- numpy operates in place before the "
+              "setter runs -- so the invariant carries the side condition aug_clean (Example "
+              "fault_path_examples exhibits it); in-place edits through the getter view bypass validation "
+              "altogether and are outside the invariant.")
 TECHNIQUE = ("Coq proof over R (Coquelicot auto_derive, field, lra) about a model regenerated from source "
              "with ast + differential correspondence (vm_compute on Q, expression-tree evaluation)")
 DESIGN_REF = "DESIGN.md section 6 C14"
@@ -53,7 +67,11 @@ TRUSTED = ["py/vlib/mapsgen.py: reading of the Map* method bodies (single return
            "`gradient *= e` as the factor e; np.log10/np.log/np.exp/**/1.0/x) -- cross-checked "
            "numerically against the methods themselves on every run",
            "Model/Maps.v: hand model of Model._check_positive_finite/_init_parameter/setters and of "
-           "numpy's IEEE special values under the six backward maps (tied by correspondence)"]
+           "numpy's IEEE special values under the six backward maps (tied by correspondence)",
+           "py/props/c14.py extract_setter_orders: reading of the five setters of Model (and one level of "
+           "helper method) as event lists EvGuardNone / EvCheckValues / EvCheckStored / EvStore; fails closed on "
+           "any other statement; validated on every run by the fault-path stream (stored arrays after every "
+           "refused assignment vs the interpretation of the extracted list)"]
 ASSUMES = ["theorems over R: real arithmetic instead of IEEE-754 (no rounding; over-/underflow of backward "
            "enters the validation model only through the oracle ovf, which is None over R)",
            "property arrays are broadcastable to the grid shape (shape errors are not part of C14)",
@@ -114,7 +132,187 @@ def anchor_volume_model(ctx):
             f'(map.backward calls found at lines {calls}); the coefficient model of C14 is not anchored')
 
 
-PREBUILD = [gen_maps, anchor_volume_model]
+SETTER_PARAMS = ['property_x', 'property_y', 'property_z', 'mu_r', 'epsilon_r']
+SETTER_COQ = {'property_x': 'PX', 'property_y': 'PY', 'property_z': 'PZ', 'mu_r': 'PMu', 'epsilon_r': 'PEps'}
+
+
+def extract_setter_orders(repo):
+    """Read the ORDER of events of the five setters of `Model` off models.py with `ast`
+    (fail closed: anything that is not one of the recognised statements raises).
+
+    Recognised statements (the setter body, and the body of ONE level of helper methods
+    `self.<helper>(<value>, '<name>')` which is inlined):
+      * docstring; `return` without value at the very end
+      * `self._check_positive_finite(<value>|<stored>, <name>)`     -> EvCheckValues | EvCheckStored
+      * `<stored>[:] = <cast>(<value>, ...)` / `= <value>`           -> EvStore
+      * `<alias> = getattr(self, '_' + <name>)` / `= self._<name>`   (binds an alias of the stored array)
+      * `if <stored> is None: raise ...`                             -> EvGuardNone
+    where <stored> is `self._<name>` or such an alias.  Returns {param: [event, ...]}."""
+    import ast
+    import os
+    src = open(os.path.join(repo, 'emg3d', 'models.py')).read()
+    mod = ast.parse(src)
+    cls = [n for n in mod.body if isinstance(n, ast.ClassDef) and n.name == 'Model']
+    if len(cls) != 1:
+        raise MG.MapsUntranslatable('models.py: class Model not found')
+    methods = {}
+    setters = {}
+    for n in cls[0].body:
+        if not isinstance(n, ast.FunctionDef):
+            continue
+        is_setter = [d for d in n.decorator_list
+                     if isinstance(d, ast.Attribute) and d.attr == 'setter' and isinstance(d.value, ast.Name)]
+        if is_setter:
+            pn = is_setter[0].value.id
+            if pn in SETTER_PARAMS:
+                if pn in setters:
+                    raise MG.MapsUntranslatable(f'models.py:{n.lineno}: second setter of {pn}')
+                setters[pn] = n
+        elif not n.decorator_list:
+            methods[n.name] = n
+    if sorted(setters) != sorted(SETTER_PARAMS):
+        raise MG.MapsUntranslatable(f'models.py: setters found for {sorted(setters)}, expected {SETTER_PARAMS}')
+
+    def fail(node, what):
+        raise MG.MapsUntranslatable(f"models.py:{getattr(node, 'lineno', '?')}: setter order not readable: {what}")
+
+    def is_self_attr(node, attr=None):
+        return (isinstance(node, ast.Attribute) and isinstance(node.value, ast.Name) and node.value.id == 'self'
+                and (attr is None or node.attr == attr))
+
+    def walk_body(fn, pname, vname, nname, depth):
+        """events of function body `fn`; vname = local name of the assigned values, nname = local
+        name holding the parameter name string (None: the literal is used)."""
+        events = []
+        aliases = set()
+
+        def is_name_ref(node):
+            if isinstance(node, ast.Constant) and node.value == pname:
+                return True
+            return nname is not None and isinstance(node, ast.Name) and node.id == nname
+
+        def is_stored(node):
+            if is_self_attr(node, '_' + pname):
+                return True
+            if isinstance(node, ast.Name) and node.id in aliases:
+                return True
+            return is_stored_expr(node)
+
+        def is_stored_expr(node):
+            # getattr(self, '_' + name)  /  getattr(self, '_<pname>')
+            if (isinstance(node, ast.Call) and isinstance(node.func, ast.Name) and node.func.id == 'getattr'
+                    and len(node.args) == 2 and isinstance(node.args[0], ast.Name) and node.args[0].id == 'self'):
+                a = node.args[1]
+                if isinstance(a, ast.Constant) and a.value == '_' + pname:
+                    return True
+                if (isinstance(a, ast.BinOp) and isinstance(a.op, ast.Add) and isinstance(a.left, ast.Constant)
+                        and a.left.value == '_' and is_name_ref(a.right)):
+                    return True
+                if (isinstance(a, ast.JoinedStr) and len(a.values) == 2 and isinstance(a.values[0], ast.Constant)
+                        and a.values[0].value == '_' and isinstance(a.values[1], ast.FormattedValue)
+                        and is_name_ref(a.values[1].value)):
+                    return True
+            return False
+
+        def is_value(node):
+            return isinstance(node, ast.Name) and node.id == vname
+
+        body = list(fn.body)
+        if body and isinstance(body[0], ast.Expr) and isinstance(body[0].value, ast.Constant) \
+                and isinstance(body[0].value.value, str):
+            body = body[1:]
+        for k, st in enumerate(body):
+            if isinstance(st, ast.Return) and st.value is None and k == len(body) - 1:
+                continue
+            if isinstance(st, ast.Expr) and isinstance(st.value, ast.Call) and is_self_attr(st.value.func):
+                call = st.value
+                if call.keywords or len(call.args) != 2 or not is_name_ref(call.args[1]):
+                    fail(st, 'call with unexpected arguments')
+                if call.func.attr == '_check_positive_finite':
+                    if is_value(call.args[0]):
+                        events.append('EvCheckValues')
+                    elif is_stored(call.args[0]):
+                        events.append('EvCheckStored')
+                    else:
+                        fail(st, 'check of something that is neither the assigned values nor the stored array')
+                    continue
+                helper = methods.get(call.func.attr)
+                if helper is None or depth >= 1 or not is_value(call.args[0]):
+                    fail(st, f'call of self.{call.func.attr}')
+                hargs = [a.arg for a in helper.args.args]
+                if (len(hargs) != 3 or helper.args.vararg or helper.args.kwarg or helper.args.kwonlyargs
+                        or helper.args.defaults):
+                    fail(helper, 'helper signature')
+                events += walk_body(helper, pname, hargs[1], hargs[2], depth + 1)
+                continue
+            if (isinstance(st, ast.Assign) and len(st.targets) == 1 and isinstance(st.targets[0], ast.Name)
+                    and is_stored_expr(st.value) or
+                    isinstance(st, ast.Assign) and len(st.targets) == 1 and isinstance(st.targets[0], ast.Name)
+                    and is_self_attr(st.value, '_' + pname)):
+                if st.targets[0].id == vname:
+                    fail(st, 'the assigned values are rebound')
+                aliases.add(st.targets[0].id)
+                continue
+            if isinstance(st, ast.Assign) and len(st.targets) == 1 and isinstance(st.targets[0], ast.Subscript):
+                tg = st.targets[0]
+                sl = tg.slice
+                full = isinstance(sl, ast.Slice) and sl.lower is None and sl.upper is None and sl.step is None
+                if not (full and is_stored(tg.value)):
+                    fail(st, 'store into something else than <stored>[:]')
+                v = st.value
+                ok = is_value(v) or (isinstance(v, ast.Call) and v.args and is_value(v.args[0])
+                                     and isinstance(v.func, ast.Attribute) and isinstance(v.func.value, ast.Name)
+                                     and v.func.value.id == 'np'
+                                     and v.func.attr in ('asfortranarray', 'asarray', 'array', 'ascontiguousarray'))
+                if not ok:
+                    fail(st, 'stored expression is not a cast of the assigned values')
+                events.append('EvStore')
+                continue
+            if (isinstance(st, ast.If) and not st.orelse and isinstance(st.test, ast.Compare)
+                    and len(st.test.ops) == 1 and isinstance(st.test.ops[0], ast.Is)
+                    and isinstance(st.test.comparators[0], ast.Constant) and st.test.comparators[0].value is None
+                    and is_stored(st.test.left) and len(st.body) == 1 and isinstance(st.body[0], ast.Raise)):
+                events.append('EvGuardNone')
+                continue
+            fail(st, f'unexpected statement {type(st).__name__}')
+        return events
+
+    out = {}
+    for pn in SETTER_PARAMS:
+        fn = setters[pn]
+        args = [a.arg for a in fn.args.args]
+        if len(args) != 2 or args[0] != 'self':
+            fail(fn, 'setter signature')
+        ev = walk_body(fn, pn, args[1], None, 0)
+        if ev.count('EvStore') != 1:
+            fail(fn, f'{ev.count("EvStore")} stores in the setter of {pn}')
+        out[pn] = ev
+    return out
+
+
+def gen_setter_order(ctx):
+    """PREBUILD: regenerate Gen/MapsSetter.v (order of check / store in the five setters of Model)
+    from the current models.py; fail closed."""
+    import os
+    orders = extract_setter_orders(V.REPO)
+    _MAPS['setter_orders'] = orders
+    lines = ["(* Gen/MapsSetter.v -- GENERATED on every run from emg3d/models.py by py/props/c14.py",
+             "   (gen_setter_order; do not edit): the events of each setter of Model in source order. *)",
+             "From Coq Require Import List.", "From V Require Import Model.Maps.", "Import ListNotations.", "",
+             "Definition setter_order (p : pname) : list setter_event :=", "  match p with"]
+    for pn in SETTER_PARAMS:
+        lines.append(f"  | {SETTER_COQ[pn]} => [{'; '.join(orders[pn])}]")
+    lines += ["  end.", ""]
+    text = '\n'.join(lines)
+    path = os.path.join(V.COQ, 'Gen', 'MapsSetter.v')
+    old = open(path).read() if os.path.exists(path) else None
+    if old != text:
+        os.makedirs(os.path.dirname(path), exist_ok=True)
+        with open(path, 'w') as f:
+            f.write(text)
+
+
+PREBUILD = [gen_maps, anchor_volume_model, gen_setter_order]
 
 
 def trees():
@@ -811,6 +1009,282 @@ def check_histories(ctx, n, dis, hist, samples):
     return nev, len(nontriv)
 
 
+# ------------- (f) fault paths: refused assignments on ONE Model object, then continued use
+INF = float('inf')
+NAN = float('nan')
+FAULT_LIN = [('zero', 0.0), ('negzero', -0.0), ('negative', -1.5), ('inf', INF), ('ninf', -INF), ('nan', NAN)]
+FAULT_LG = [('inf', INF), ('ninf', -INF), ('nan', NAN), ('lg>308', 400.0), ('lg<-308', -400.0)]
+FAULT_LN = [('inf', INF), ('ninf', -INF), ('nan', NAN), ('ln>709', 800.0), ('ln<-745', -800.0)]
+
+
+def fault_candidates(name, p):
+    """Raw cell values whose conductivity (mu_r / epsilon_r: the value) is zero, negative, inf or
+    nan -- every way the slot can express them (Resistivity: rho = 0 is sigma = inf, rho = inf is
+    sigma = 0; log maps: +-inf and finite values beyond the float range of 10**x / exp(x))."""
+    if p >= 3 or name in ('Conductivity', 'Resistivity'):
+        return FAULT_LIN
+    return FAULT_LG if name.startswith('Lg') else FAULT_LN
+
+
+def cond_class(name, p, raw):
+    """Class of the back-mapped conductivity of a raw value (implementation's own backward)."""
+    if p < 3:
+        try:
+            with np.errstate(all='ignore'):
+                c = float(impl_map(name).backward(np.array([raw]))[0])
+        except Exception:
+            c = NAN
+    else:
+        c = raw
+    if c != c:
+        return 'nan'
+    if c == INF:
+        return 'inf'
+    if c == 0:
+        return 'zero'
+    return 'negative' if c < 0 else 'positive'
+
+
+def gen_fault_history(rng, ci):
+    """Deterministic classes: mapping = ci mod 6, anisotropy case = (ci div 6) mod 4; the triaxial
+    case carries mu_r and epsilon_r (so every mapping meets all five parameters), the others a
+    random subset (assignments to the missing ones are refused with 'initiated without').  Ops:
+    for every parameter every refused kind (one cell of the current values replaced), in random
+    order, and ONE accepted assignment somewhere in between."""
+    name = NAMES[ci % 6]
+    aniso = (ci // 6) % 4
+    shape = [(2, 1, 1), (1, 2, 1), (1, 1, 2)][(ci // 2) % 3]
+    if aniso == 3:
+        hm, he = True, True
+    else:
+        hm, he = rng.random() < 0.5, rng.random() < 0.5
+    present = [True, aniso in (1, 3), aniso in (2, 3), hm, he]
+    init = [gen_array(rng, name, p, 2, False) if present[p] else None for p in range(5)]
+    cur = [None if v is None else list(v) for v in init]
+    plan = []
+    for p in range(5):
+        if present[p]:
+            plan += [(p, kind, raw) for kind, raw in fault_candidates(name, p)]
+        else:
+            plan += [(p, 'none-valid', None), (p, 'none-' + fault_candidates(name, p)[0][0],
+                                               fault_candidates(name, p)[0][1])]
+    rng.shuffle(plan)
+    pos_ok = rng.randint(1, len(plan) - 1)
+    ops = []
+    for k, (p, kind, raw) in enumerate(plan):
+        if k == pos_ok:
+            q = rng.choice([i for i in range(5) if present[i]])
+            vals = gen_array(rng, name, q, 2, False)
+            ops.append((q, vals, 'valid'))
+            cur[q] = list(vals)
+        base = list(cur[p]) if cur[p] is not None else gen_array(rng, name, p, 2, False)
+        if raw is not None:
+            cell = rng.randint(0, 1)
+            base[cell] = float_to_val(raw)
+            if rng.random() < 0.15:
+                base = [base[cell]] * 2           # handed over as a scalar
+        ops.append((p, base, kind))
+    freq = -K.dy_pos(rng) if rng.random() < 0.4 else K.dy_pos(rng)
+    hs = [[K.dy_pos(rng) for _ in range(m)] for m in shape]
+    return dict(map=name, aniso=aniso, shape=shape, init=init, ops=ops, freq=freq, hs=hs)
+
+
+def describe_fault(h, upto=None):
+    ops = h['ops'] if upto is None else h['ops'][:upto + 1]
+    return {'mapping': h['map'], 'aniso': h['aniso'], 'shape': list(h['shape']), 'freq': h['freq'], 'hs': h['hs'],
+            'init': {PNAMES[p]: (None if v is None else [repr(to_float(x)) for x in v])
+                     for p, v in enumerate(h['init'])},
+            'ops': [{'assign': PNAMES[p], 'values': [repr(to_float(x)) for x in vals], 'kind': kind}
+                    for p, vals, kind in ops]}
+
+
+def _state_codes(model):
+    st = []
+    for pn in PNAMES:
+        a = getattr(model, pn)
+        st.append(None if a is None else [cell_code(x) for x in np.asarray(a).ravel('F')])
+    return st
+
+
+def _coeff_arrays(model, sfield):
+    import emg3d
+    vm = emg3d.models.VolumeModel(model, sfield)
+    return [np.array(vm.eta_x), np.array(vm.eta_y), np.array(vm.eta_z), np.array(vm.zeta)]
+
+
+def run_fault_impl(h):
+    """The history on ONE Model object: every assignment inside try/except, and after EACH op the
+    stored arrays and a VolumeModel built from the very same object."""
+    import emg3d
+    grid = emg3d.TensorMesh(h['hs'], (0, 0, 0))
+    sfield = emg3d.Field(grid, frequency=h['freq'])
+    kw = {PNAMES[p]: (None if v is None else np_vals(v, h['shape'])) for p, v in enumerate(h['init'])}
+    steps, states, coeffs = [], [], []
+    with warnings.catch_warnings(), np.errstate(all='ignore'):
+        warnings.simplefilter('ignore')
+        model = emg3d.Model(grid, mapping=h['map'], **kw)
+        for p, vals, kind in h['ops']:
+            try:
+                setattr(model, PNAMES[p], np_vals(vals, h['shape']))
+                steps.append(0)
+            except Exception as e:
+                steps.append(err_code(e))
+            states.append(_state_codes(model))
+            try:
+                coeffs.append(_coeff_arrays(model, sfield))
+            except Exception as e:
+                coeffs.append(repr(e))
+    return steps, states, coeffs, sfield
+
+
+def _vals_codes(vals):
+    return [cell_code(to_float(v)) for v in vals]
+
+
+def _cond_state(name, vals5, shape):
+    """conductivities (by the extracted backward tree) / mu_r / epsilon_r arrays of a state"""
+    t = trees()[name]
+    out = {}
+    for key, p in (('x', 0), ('y', 1), ('z', 2), ('mu', 3), ('eps', 4)):
+        v = vals5[p]
+        if v is None:
+            out[key] = None
+            continue
+        fl = [to_float(c) for c in v]
+        if p < 3:
+            fl = [MG.evaluate(t['backward'], x, t) for x in fl]
+        out[key] = np.array(fl).reshape(shape, order='F')
+    return out
+
+
+def parse_history_sp(ans, nops):
+    import re
+    ints = [int(x) for x in re.findall(r'-?\d+', ans)]
+    if ints[0] != 0:
+        return ints[0], [], []
+    steps = ints[1:1 + nops]
+    rest = ints[1 + nops:]
+    states = []
+    k = 0
+    for _ in range(nops):
+        k += 1                                   # anisotropy case
+        st = []
+        for _p in range(5):
+            flag = rest[k]
+            k += 1
+            if flag == 0:
+                st.append(None)
+            else:
+                st.append([tuple(rest[k + 3 * c:k + 3 * c + 3]) for c in range(2)])
+                k += 6
+        states.append(st)
+    if k != len(rest):
+        raise ValueError('unparsed output: ' + ans[:200])
+    return 0, steps, states
+
+
+def check_fault_paths(ctx, n, dis, hist, samples):
+    rng = ctx.rng
+    hs = [gen_fault_history(rng, ci) for ci in range(n)]
+    texts, runs = [], []
+    for ci, h in enumerate(hs):
+        try:
+            run = run_fault_impl(h)
+        except Exception as e:
+            dis.append({'what': 'fault-path history: a valid model could not be constructed', 'case': describe_fault(h),
+                        'impl': repr(e), 'model': 'accepted'})
+            runs.append(None)
+            continue
+        runs.append(run)
+        sfield = run[3]
+        vol = np.multiply.outer(np.multiply.outer(h['hs'][0], h['hs'][1]), h['hs'][2])
+        sval, smu0 = complex(sfield.sval), complex(sfield.smu0)
+        # the two states the SPECIFICATION allows: initial, and after the one accepted assignment
+        s0 = [None if v is None else list(v) for v in h['init']]
+        s1 = [None if v is None else list(v) for v in s0]
+        for p, vals, kind in h['ops']:
+            if kind == 'valid':
+                s1[p] = list(vals)
+        h['spec_states'] = (s0, s1)
+
+        def opt(v):
+            return 'None' if v is None else '(Some [' + '; '.join(to_coq(x) for x in v) + '])'
+        ops = '; '.join(f"(@OpSet Q {PCOQ[p]} [" + '; '.join(to_coq(x) for x in vals) + "])" for p, vals, _ in h['ops'])
+        lines = [f"Eval vm_compute in run_history_sp {V.coq_str(h['map'])} {' '.join(opt(v) for v in h['init'])} [{ops}].",
+                 _coeff_items(h['shape'], vol, smu0, sval, h['aniso'], _cond_state(h['map'], s0, h['shape'])),
+                 _coeff_items(h['shape'], vol, smu0, sval, h['aniso'], _cond_state(h['map'], s1, h['shape']))]
+        texts.append((ci, '\n'.join(lines) + '\n'))
+    # six histories per file (loading the libraries dominates the cost of a file)
+    head = (K.CASE_HEADER + "From Coq Require Import String.\n"
+            "From V Require Import Model.VolumeModel Model.Maps Model.MapsSetter.\n")
+    files, where = [], {}
+    for k in range(0, len(texts), 6):
+        grp = texts[k:k + 6]
+        for j, (ci, _) in enumerate(grp):
+            where[ci] = (f"c14_fp_{k // 6}", j)
+        files.append((f"c14_fp_{k // 6}", head + ''.join(t for _, t in grp)))
+    res = V.coq_eval_many(files)
+    split = {}
+    for fname, _ in files:
+        rc, out = res[fname]
+        split[fname] = (rc, out, V.eval_answers(out) if rc == 0 else [])
+    nev = 0
+    for ci, h in enumerate(hs):
+        if runs[ci] is None:
+            continue
+        fname, j = where[ci]
+        rc, out, allans = split[fname]
+        if rc != 0 or len(allans) < 3 * j + 3:
+            dis.append({'what': 'fault-path model evaluation failed', 'log': out[-1500:]})
+            continue
+        answers = allans[3 * j:3 * j + 3]
+        m_init, m_steps, m_states = parse_history_sp(answers[0], len(h['ops']))
+        refs = [[complex(float(a), float(b)) for a, b in V.parse_cpairs(answers[k])] for k in (1, 2)]
+        spec_codes = [[None if v is None else _vals_codes(v) for v in s] for s in h['spec_states']]
+        steps, states, coeffs, _ = runs[ci]
+        if ci < 2:
+            samples.append({'fault_path_history': describe_fault(h), 'outcomes': [str(x) for x in steps]})
+        if m_init != 0:
+            dis.append({'what': 'fault-path history: the model refuses a valid construction',
+                        'case': describe_fault(h), 'impl': 'accepted', 'model': m_init})
+            continue
+        for k, (p, vals, kind) in enumerate(h['ops']):
+            nev += 1
+            key = f"fault:{'log' if (p < 3 and h['map'][0] == 'L') else 'lin'}:{kind} -> {steps[k]}"
+            hist[key] = hist.get(key, 0) + 1
+            case = None
+            if steps[k] != m_steps[k]:
+                case = ('outcome of the assignment differs', str(steps[k]), str(m_steps[k]))
+            elif states[k] != m_states[k]:
+                case = ('stored arrays after the assignment differ from the model state',
+                        repr(states[k]), repr(m_states[k]))
+            else:
+                which = [j for j in (0, 1) if m_states[k] == spec_codes[j]]
+                want = 1 if any(kd == 'valid' for _, _, kd in h['ops'][:k + 1]) else 0
+                if want not in which:
+                    case = ('setters as generated from the source: the model state after a REFUSED assignment is not '
+                            'the state before it (model and implementation agree with each other)',
+                            repr(states[k]), 'specification: ' + repr(spec_codes[want]))
+                elif isinstance(coeffs[k], str):
+                    case = ('VolumeModel after the assignment raised', coeffs[k], 'coefficients')
+                else:
+                    ref = refs[want]
+                    j = 0
+                    for idx in itertools.product(*[range(m) for m in h['shape']]):
+                        for c in range(4):
+                            m = ref[j]
+                            j += 1
+                            iv = complex(coeffs[k][c][idx])
+                            if case is None and not abs(iv - m) <= 1e-12 * max(abs(m), 1e-300):
+                                case = ('VolumeModel.%s built after the assignment differs from the coefficients '
+                                        'of the model state' % ['eta_x', 'eta_y', 'eta_z', 'zeta'][c], str(iv), str(m))
+            if case:
+                dis.append({'what': 'fault-path history (step %d, %s %s): %s' % (k, PNAMES[p], kind, case[0]),
+                            'case': describe_fault(h, k), 'step': k, 'impl': case[1][:600], 'model': case[2][:600]})
+                break
+    return nev
+
+
 # --------------------------------------------------------- (e) map selection
 def check_selection(ctx, dis):
     import emg3d
@@ -856,9 +1330,10 @@ def correspondence(ctx):
     n_c = check_coefficients(ctx, 32 if ctx.thorough else 8, dis, hist, samples)
     n_c += check_vm_histories(ctx, 96 if ctx.thorough else 24, dis, hist, samples)
     n_h, nt = check_histories(ctx, 3000 if ctx.thorough else 400, dis, hist, samples)
+    n_f = check_fault_paths(ctx, 72 if ctx.thorough else 24, dis, hist, samples)
     n_s = check_selection(ctx, dis)
     return {
-        'evaluations': n_m + n_t + n_c + n_h + n_s,
+        'evaluations': n_m + n_t + n_c + n_h + n_f + n_s,
         'distinct_nontrivial': nt,
         'rule': "methods: sigma log-uniform over 1e-6..1e6 plus decade points, six maps, forward/backward/"
                 "derivative_chain vs evaluation of the extracted tree (1e-12); twins: dyadic +- values vs "
@@ -873,10 +1348,16 @@ def correspondence(ctx):
                 "negative, nan, +-inf, values beyond the float range of 10**x/exp(x); assignments to None "
                 "properties; 35% of the ops are augmented assignments `model.p op= k`, op in *= += -= /=, k in "
                 "{2, .5, 3, -1, 0, 1, nan, inf, +-1e4, 400, 2^-900, random}, performed exactly as Python does: "
-                "in-place numpy operator on the stored array, then the setter with that array); distinct non-trivial = distinct "
+                "in-place numpy operator on the stored array, then the setter with that array); fault paths: 24 (thorough "
+                "72) histories on ONE Model object, (mapping, anisotropy case) enumerated, triaxial with mu_r and "
+                "epsilon_r: for every parameter every refused kind (lin: 0, -0.0, -1.5, +-inf, nan; Lg*: +-inf, nan, "
+                "+-400; Ln*: +-inf, nan, +-800; None property: a valid and an invalid value) in one cell or as a "
+                "scalar, random order, one accepted assignment in between; after EACH op outcome, the five stored "
+                "arrays and the VolumeModel of the same object vs run_history_sp (setter order as generated) and "
+                "eta_of/zeta_of on the model state; distinct non-trivial = distinct "
                 "(map, outcome sequence, None pattern) with at least one rejection",
         'samples': samples[:8],
-        'traces_validated_against_impl': n_h,
+        'traces_validated_against_impl': n_h + n_f,
         'histogram': hist,
         'disagreements': dis,
     }
@@ -1168,10 +1649,111 @@ def search_acceptance_aug(rng, n_extra):
     return None
 
 
+def fault_case(name, aniso, p, raw, cell, scalar=False, seed=0):
+    """ONE fault path, implementation only: a valid model (mapping `name`, anisotropy case
+    `aniso`; the triaxial case carries mu_r and epsilon_r) -> assignment `model.<p> = values` with
+    `raw` in cell `cell` (raw = 'shape': an array that cannot be broadcast; raw = 'type': a
+    string) -> if the assignment RAISES, every stored array and the VolumeModel built from the
+    same object afterwards must be bitwise what they were before.  Returns None or the hit."""
+    import random
+    import emg3d
+    rng = random.Random(seed)
+    shape = (2, 1, 1)
+    grid = emg3d.TensorMesh([[1.0, 2.0], [0.5], [4.0]], (0, 0, 0))
+    sfield = emg3d.Field(grid, frequency=[1.0, -2.0][seed % 2])
+    present = [True, aniso in (1, 3), aniso in (2, 3), aniso in (0, 3), aniso in (1, 3)]
+    mp = impl_map(name)
+    with warnings.catch_warnings(), np.errstate(all='ignore'):
+        warnings.simplefilter('ignore')
+        good = []
+        for q in range(5):
+            c = np.array([logu(rng, -4, 4), logu(rng, -4, 4)]).reshape(shape)
+            good.append(np.asarray(mp.forward(c), float) if q < 3 else c)
+        kw = {PNAMES[q]: (good[q].copy() if present[q] else None) for q in range(5)}
+        model = emg3d.Model(grid, mapping=name, **kw)
+        before = [None if getattr(model, pn) is None else np.array(getattr(model, pn), copy=True) for pn in PNAMES]
+        cbefore = _coeff_arrays(model, sfield)
+        if isinstance(raw, str) and raw == 'shape':
+            vals = np.ones((3, 1, 1))
+        elif isinstance(raw, str) and raw == 'type':
+            vals = 'abc'
+        else:
+            vals = (good[p] if present[p] else np.ones(shape)).copy()
+            vals[cell, 0, 0] = raw
+            if scalar:
+                vals = float(raw)
+        try:
+            setattr(model, PNAMES[p], vals)
+            return None                      # accepted: not a fault path (acceptance has its own oracles)
+        except Exception as e:
+            exc = f'{type(e).__name__}: {e}'
+        after = [None if getattr(model, pn) is None else np.array(getattr(model, pn), copy=True) for pn in PNAMES]
+        try:
+            cafter = _coeff_arrays(model, sfield)
+        except Exception as e:
+            cafter = repr(e)
+
+    def same(a, b):
+        if a is None or b is None:
+            return a is None and b is None
+        return a.shape == b.shape and a.tobytes() == b.tobytes()
+    changed = [PNAMES[q] for q in range(5) if not same(before[q], after[q])]
+    cchanged = (['VolumeModel raised: ' + cafter] if isinstance(cafter, str) else
+                [nm for nm, a, b in zip(('eta_x', 'eta_y', 'eta_z', 'zeta'), cbefore, cafter) if not same(a, b)])
+    if not changed and not cchanged:
+        return None
+
+    def show(a):
+        return None if a is None else [repr(float(x)) for x in np.asarray(a).ravel('F')]
+    left = {}
+    for q in range(5):
+        if PNAMES[q] in changed:
+            left[PNAMES[q]] = {'before': show(before[q]), 'after_refused_assignment': show(after[q])}
+    if not isinstance(cafter, str):
+        for nm, a, b in zip(('eta_x', 'eta_y', 'eta_z', 'zeta'), cbefore, cafter):
+            if nm in cchanged:
+                left['VolumeModel.' + nm] = {'before': [repr(complex(x)) for x in a.ravel('F')],
+                                             'after_refused_assignment': [repr(complex(x)) for x in b.ravel('F')]}
+    return {'signature': f'refused assignment to {PNAMES[p]} is not without effect: the model holds different '
+                         f'values afterwards ({name})',
+            'kind': 'fault_path', 'map': name, 'aniso': aniso, 'prop': PNAMES[p],
+            'raw': raw if isinstance(raw, str) else ('nan' if raw != raw else float.hex(raw)),
+            'cell': cell, 'scalar': scalar, 'seed': seed,
+            'history': {'1_construct': {'mapping': name, 'grid_widths': [[1.0, 2.0], [0.5], [4.0]],
+                                        **{PNAMES[q]: show(before[q]) for q in range(5)}},
+                        '2_assign': {'parameter': PNAMES[p],
+                                     'values': vals if isinstance(vals, str) else show(np.asarray(vals, float)),
+                                     'raised': exc},
+                        '3_same_object_afterwards': left},
+            'observed': f'changed: {changed + cchanged}',
+            'required': 'a refused assignment leaves every stored parameter and the coefficients unchanged'}
+
+
+def search_fault_paths(rng, thorough):
+    """Every mapping x {triaxial with mu_r, epsilon_r; one other anisotropy case} x the five
+    parameters x every refused kind (+ a non-broadcastable array and a string): see fault_case."""
+    n = 0
+    for name in NAMES:
+        for aniso in ([3, 0, 1, 2] if thorough else [3, rng.choice([0, 1, 2])]):
+            for p in range(5):
+                cands = [raw for _, raw in fault_candidates(name, p)] + ['shape', 'type', 2.5]
+                for raw in cands:
+                    cell = rng.randint(0, 1)
+                    for scalar in ((False, True) if thorough else (rng.random() < 0.2,)):
+                        if isinstance(raw, str) and scalar:
+                            continue
+                        n += 1
+                        h = fault_case(name, aniso, p, raw, cell, scalar, seed=rng.randint(0, 2 ** 30))
+                        if h:
+                            return h
+    return None
+
+
 def search(ctx, broken):
     rng = ctx.rng
     hits = []
-    for f, args in ((search_history, (rng, 200 if ctx.thorough else 60)),
+    for f, args in ((search_fault_paths, (rng, ctx.thorough)),
+                    (search_history, (rng, 200 if ctx.thorough else 60)),
                     (search_acceptance, (rng, 40 if ctx.thorough else 6)),
                     (search_acceptance_aug, (rng, 10 if ctx.thorough else 2)),
                     (search_validation, (rng, 300 if ctx.thorough else 80)),
@@ -1214,6 +1796,12 @@ def replay(ctx, payload):
         return search_coeffs(rng, 12, solve=(kind == 'solve')) is None
     if kind == 'history':
         return search_history_case(int(fi['seed'])) is None
+    if kind == 'fault_path':
+        raw = fi['raw']
+        if raw not in ('shape', 'type'):
+            raw = NAN if raw == 'nan' else float.fromhex(raw)
+        return fault_case(fi['map'], int(fi['aniso']), PNAMES.index(fi['prop']), raw, int(fi['cell']),
+                          bool(fi['scalar']), int(fi['seed'])) is None
     if kind == 'acceptance_aug':
         import emg3d
         k = float('nan') if fi['k_hex'] == 'nan' else float.fromhex(fi['k_hex'])
